@@ -418,6 +418,42 @@ pub(crate) fn format_cycle_path(
     path.join(" -> ")
 }
 
+/// Read-only observation hooks for external runtime monitors.
+/// Compiled only with `RUSTFLAGS="--cfg rsactor_verif"`; never part of a normal build.
+#[cfg(rsactor_verif)]
+pub mod verif {
+    static FAILPOINT_HANDLER: std::sync::OnceLock<fn(&'static str)> = std::sync::OnceLock::new();
+
+    /// Installs a process-wide failpoint handler (first call wins). The handler is invoked
+    /// synchronously at each instrumented site with the site's name; it may spin, yield the
+    /// thread or sleep to widen race windows. Without a handler failpoints do nothing.
+    pub fn set_failpoint_handler(handler: fn(&'static str)) -> bool {
+        FAILPOINT_HANDLER.set(handler).is_ok()
+    }
+
+    #[inline]
+    pub(crate) fn failpoint(site: &'static str) {
+        if let Some(handler) = FAILPOINT_HANDLER.get() {
+            handler(site);
+        }
+    }
+
+    /// Copy of the wait-for graph as `(waiting actor id, awaited actor id)` pairs,
+    /// taken under the graph's own lock.
+    #[cfg(feature = "deadlock-detection")]
+    pub fn wait_for_snapshot() -> Vec<(u64, u64)> {
+        match crate::wait_for_graph().lock() {
+            Ok(graph) => {
+                let mut edges: Vec<(u64, u64)> =
+                    graph.iter().map(|(k, (v, _))| (*k, v.id)).collect();
+                edges.sort_unstable();
+                edges
+            }
+            Err(_) => vec![(u64::MAX, u64::MAX)],
+        }
+    }
+}
+
 /// Type-erased payload handler trait for dynamic message dispatch.
 ///
 /// This trait allows different message types to be handled uniformly within the actor system,
@@ -601,6 +637,9 @@ pub fn spawn_with_mailbox_capacity<T: Actor + 'static>(
         ACTOR_IDS.fetch_add(1, std::sync::atomic::Ordering::Relaxed),
         std::any::type_name::<T>(),
     );
+
+    #[cfg(rsactor_verif)]
+    crate::verif::failpoint("spawn:after_id");
 
     let (mailbox_tx, mailbox_rx) = mpsc::channel(mailbox_capacity);
     let (terminate_tx, terminate_rx) = mpsc::channel::<ControlSignal>(1);
